@@ -1275,4 +1275,46 @@ def g8 : GroupMapping := { groupId := 8, endpoints := [1], hasAuxAcl := some fal
 example : (groupsRemove [g7, g8] 1 none).1 = [{ g8 with endpoints := [] }] := by decide
 example : (fabricsReload cfg).map (·.fabIdx) = [1, 2] := by decide
 
+/-! ## removing an entry never grants access -/
+
+/-- The specification grants through entries only: what is granted after an entry was removed was
+granted before. -/
+theorem granted_before_acl_remove {fabrics fabrics' : List Fabric} {fab idx : Nat}
+    (req : AccessReq) (h : fabricsAclRemove fabrics fab idx = some fabrics')
+    (hg : Granted fabrics' req) : Granted fabrics req := by
+  unfold fabricsAclRemove fabricsMutate at h
+  cases hget : fabricsGet fabrics fab with
+  | none => simp [hget] at h
+  | some f0 =>
+    simp only [hget] at h
+    obtain ⟨hf0, hi0⟩ := fabricsGet_some_mem hget
+    cases hr : f0.aclRemove idx with
+    | none => simp [hr] at h
+    | some f' =>
+      simp only [hr] at h
+      injection h with h; subst h
+      unfold Fabric.aclRemove at hr
+      split at hr
+      · cases hr
+      · injection hr with hr; subst hr
+        rcases hg with hp | ⟨f, hf, hi, hz, hgr⟩
+        · exact Or.inl hp
+        · right
+          rcases mem_fabricsUpdate hf with hk | ⟨_, _, _, rfl⟩
+          · exact ⟨f, hk, hi, hz, hgr⟩
+          · refine ⟨f0, hf0, hi, hz, ?_⟩
+            rcases hgr with ⟨e', he', hge⟩ | hax
+            · exact Or.inl ⟨e', (List.eraseIdx_sublist _ _).subset he', hge⟩
+            · right; unfold AuxGrants at hax ⊢; exact hax
+
+/-- **Removing an ACL entry never grants access (model)**: for every well-formed configuration and
+every read / write request, a request allowed after `acl_remove` was already allowed before it. -/
+theorem acl_remove_never_grants {fabrics fabrics' : List Fabric} {fab idx : Nat}
+    (req : AccessReq) (hwf : WF fabrics) (hc : CanonicalPrivs fabrics) (hop : ReadOrWrite req)
+    (h : fabricsAclRemove fabrics fab idx = some fabrics')
+    (ha : allow fabrics' req = true) : allow fabrics req = true :=
+  (allow_iff_granted fabrics req hwf hc hop).mpr
+    (granted_before_acl_remove req h
+      ((allow_iff_granted fabrics' req (wf_fabricsAclRemove hwf h) (canonical_fabricsAclRemove hc h) hop).mp ha))
+
 end C05
